@@ -76,3 +76,44 @@ def apply_h(M, p):
     M = np.asarray(nparr.base(M) if isinstance(M, np.ndarray) else M, dtype=object)
     d = len(p)
     return [sum(M[i, j] * p[j] for j in range(d)) + M[i, d] for i in range(d)]
+
+
+# ---- logic helpers usable in both the symbolic and the concrete run of a unit body
+def l_not(x):
+    from .core import SymBool
+
+    return ~x if isinstance(x, SymBool) else (not bool(x))
+
+
+def l_and(*xs):
+    r = True
+    for x in xs:
+        r = x & r if not isinstance(r, bool) or not isinstance(x, (bool, np.bool_)) else (bool(x) and r)
+    return r
+
+
+def l_or(*xs):
+    r = False
+    for x in xs:
+        r = x | r if not isinstance(r, bool) or not isinstance(x, (bool, np.bool_)) else (bool(x) or r)
+    return r
+
+
+def l_iff(a, b):
+    from .core import SymBool
+
+    if isinstance(a, SymBool) or isinstance(b, SymBool):
+        return a == b if isinstance(a, SymBool) else b == a
+    return bool(a) == bool(b)
+
+
+def l_count(xs):
+    """number of true elements as an Int term / int"""
+    import z3
+
+    from .core import Sym, SymBool
+
+    tot = 0
+    for x in xs:
+        tot = tot + (Sym(z3.If(x.t, z3.IntVal(1), z3.IntVal(0))) if isinstance(x, SymBool) else int(bool(x)))
+    return tot
